@@ -337,7 +337,7 @@ Definition ex_collide : list rprofile :=
                         rp_cfg := Some (APool {| p_fam := V6; p_lo := 16; p_hi := 32; p_excl := [] |}) |} ] |};
     {| rf_name := 1; rf_fam := FPD;
        rf_pools := [ {| rp_name := 1; rp_prio := 0; rp_vrf := 0;
-                        rp_cfg := Some (APd {| pd_net := 42540766411282592856903984951653826560; pd_nbits := 48; pd_plen := 56 |}) |} ] |} ].
+                        rp_cfg := Some (APd {| pd_net := 42540766411282592856903984951653826560; pd_nbits := 48; pd_plen := 56; pd_v4 := false |}) |} ] |} ].
 
 (* ---------------------------------------------------------------- priority order of the profile list *)
 Definition prio_le (p q : rpool) : Prop := (rp_prio p <= rp_prio q)%Z.
